@@ -10,6 +10,7 @@ type Spec struct {
 	Run            func(*Ctx)
 	Shards         int      // 0: default (one per core); 1: single process
 	Binary         string   // "": plain build; "race": -race build
+	Extra386Shards int      // >0: the same workload once more, on this many shards, with a GOARCH=386 build (int and uint are 32 bits wide there)
 	Env            []string // extra environment for the workers
 	Rule           string   // how cases are generated / what counts as non-trivial
 	Assumptions    []string
@@ -70,8 +71,8 @@ func init() {
 		Assumptions: append([]string{"oracle: strconv.ParseFloat; a 2% sample is re-derived with exact big.Rat arithmetic (ties-to-even) and a disagreement makes the run inconclusive; literals whose integer part has more than 800 digits are decided by the exact big.Rat computation alone, because strconv itself is wrong there"}, commonAssumptions...),
 		MinEvals:    800000,
 		MinCounters: map[string]int64{"digits_17_to_19": 100000, "digits_20_to_800": 50000, "digits_over_800": 500, "expect_range_error": 1000, "expect_subnormal": 2000, "oracle_rechecked_with_exact_rational_arithmetic": 3000, "oracle_is_exact_rational_arithmetic_because_integer_part_exceeds_800_digits": 300}})
-	register(&Spec{ID: "C05", Run: RunC05,
-		Rule:        "inputs: W6a (every value within a window of each type bound and each 18/19/20-digit switch-over point x 3 whitespace prefixes x 21 followers, hand shapes, random digit strings of 1-40 digits) and the W1 byte sweep of top-level tokens; each through all six Read* and six Decode* integer functions against a math/big model; distinct by input hash; non-trivial = input starts (after whitespace and optional '-') with a digit",
+	register(&Spec{ID: "C05", Run: RunC05, Extra386Shards: 4,
+		Rule:        "inputs: W6a (every value within a window of each type bound and each 18/19/20-digit switch-over point x 3 whitespace prefixes x 21 followers, hand shapes, random digit strings of 1-40 digits) and the W1 byte sweep of top-level tokens; each through all six Read* and six Decode* integer functions against a math/big model, once on the native 64-bit build and once more on a GOARCH=386 build of checker and library (int and uint are 32 bits wide there and take other code paths; the notes say whether that pass ran); distinct by input hash per build; non-trivial = input starts (after whitespace and optional '-') with a digit",
 		Assumptions: commonAssumptions, MinEvals: 3000000,
 		MinCounters: map[string]int64{"expect_success_Int64": 50000, "expect_error_Int64": 50000, "expect_success_Uint32": 10000, "expect_error_Uint64": 50000}})
 }
@@ -81,7 +82,7 @@ func init() {
 		Rule:        "inputs: W7 (all 65,536 \\uXXXX units in 3 hex spellings and 3 shapes; every high surrogate x 15 partners, every low x 6, a (high,low) grid; every byte value replaced/inserted/appended at every position of 12 string templates in 12 contexts; generated strings), the W1 sweep of top-level tokens and W5 long strings; each through ReadStringBytes (nil and destinations of capacities 0..need+4), ReadString (nil / dirty scratch), DecodeString and UnescapeStringContent on the content span; distinct by hash; non-trivial = contains a backslash, a byte >= 0x80 or a control byte",
 		Assumptions: commonAssumptions, MinEvals: 5000000,
 		MinCounters: map[string]int64{"wellformed_tokens": 300000, "malformed_tokens": 300000, "tokens_with_unicode_escapes": 150000, "growth_boundary_calls": 1000000}})
-	register(&Spec{ID: "C12", Run: RunC12,
+	register(&Spec{ID: "C12", Run: RunC12, Extra386Shards: 4,
 		Rule:        "inputs: the literals null/true/false with every one-byte replacement, insertion and truncation in 36 contexts, the W1 sweep of top-level tokens, W6 integer and float literals, generated strings; each through all nine Decode* functions (DecodeString with and without scratch) with two different sentinel target values; expected outcome derived from the corresponding Read* result and an independent null-prefix test; distinct by hash; non-trivial = input is not empty/all-whitespace",
 		Assumptions: append([]string{"the reader half of the relation is the real Read* function (C04/C05/C06/C13 decide whether that is right)"}, commonAssumptions...),
 		MinEvals:    5000000,
